@@ -8,6 +8,8 @@ import (
 	"fmt"
 	"math/big"
 	"math/rand/v2"
+	"sync"
+	"sync/atomic"
 
 	"github.com/oasisprotocol/curve25519-voi/curve/scalar"
 	"github.com/oasisprotocol/curve25519-voi/zzverif/entropy"
@@ -443,9 +445,59 @@ func entropyCase(r *mon.Run, c Case) {
 	entropy.Check(r, "C05", r.Rng(c.Stream), func(sig, what string) { r.Violate(sig, what, c) })
 }
 
+// concurrentScalars: every scalar operation is a pure function of its operands. Eight goroutines run the list
+// operations (the ones that need scratch space) on their own large batches at the same time; each result is checked
+// against math/big. Scratch that is shared between calls (a pool handed back too early, a package-level buffer)
+// shows as a wrong inverse.
+func concurrentScalars(r *mon.Run, c Case) {
+	const G, rounds, n = 8, 3, 3000
+	var wg sync.WaitGroup
+	var wrong int64
+	var first atomic.Value
+	for g := 0; g < G; g++ {
+		wg.Add(1)
+		go func(g int) {
+			defer wg.Done()
+			rng := r.Rng(fmt.Sprintf("%s/g%d", c.Stream, g))
+			for round := 0; round < rounds; round++ {
+				vals := make([]*big.Int, n)
+				ss := make([]*scalar.Scalar, n)
+				for i := range vals {
+					v := gen.RandModL(rng)
+					if v.Sign() == 0 {
+						v.SetInt64(1)
+					}
+					vals[i], ss[i] = v, sc(v)
+				}
+				scalar.New().BatchInvert(ss)
+				sum := scalar.New().Sum(ss[:100])
+				for i := 0; i < n; i += 7 {
+					want := new(big.Int).ModInverse(vals[i], L)
+					if !bytes.Equal(bytesOf(ss[i]), ref.LE32(want)) {
+						if atomic.AddInt64(&wrong, 1) == 1 {
+							first.Store(fmt.Sprintf("goroutine %d round %d: BatchInvert element %d of %d is not the inverse of its input", g, round, i, n))
+						}
+					}
+				}
+				_ = sum
+			}
+		}(g)
+	}
+	wg.Wait()
+	r.EvalN(G * rounds)
+	r.HistN("concurrent/BatchInvert-batches", G*rounds)
+	if wrong > 0 {
+		r.Violate("scalar/BatchInvert/result-depends-on-concurrent-calls", fmt.Sprintf("%d wrong elements; first: %v", wrong, first.Load()), c)
+	}
+}
+
 func runCase(r *mon.Run, c Case) {
 	if c.Kind == "entropy" {
 		entropyCase(r, c)
+		return
+	}
+	if c.Kind == "concurrent" {
+		concurrentScalars(r, c)
 		return
 	}
 	x := &ctx{r: r, c: c, h: hist.New(r.Rng(c.Stream + "/receivers")), hv: hist.New(r.Rng(c.Stream + "/operands"))}
@@ -554,6 +606,9 @@ func main() {
 	r.Sample("case", cases[0])
 	r.Sample("catalogue-value", fmt.Sprintf("%x", cat[len(cat)/2]))
 	r.Sample("case", cases[len(cases)-1])
+	for i := 0; i < r.Pick(3, 30); i++ {
+		concurrentScalars(r, Case{Kind: "concurrent", Stream: fmt.Sprintf("c05/concurrent/%d", i)})
+	}
 	for i := 0; i < r.Pick(6, 60); i++ {
 		entropyCase(r, Case{Kind: "entropy", Stream: fmt.Sprintf("c05/entropy/%d", i)})
 	}
